@@ -427,7 +427,7 @@ def case(ctx, i, rng, fx):
         culprit = "yaml-self-alias" if "yaml-self-alias" in cl or "&x [*x]" in str(pcopy) or "&a {k: *a}" in str(pcopy) or any("*" in str(v) and "&" in str(v) for v in (env or {}).values()) else "other"
         ctx.violation("termination", f"step-budget-exceeded/{culprit}", dict(shape=shape, method=method, payload=short(pcopy, 600), env=env, classes=cl, budget=STEP_BUDGET))
         return
-    if o.accepted and method == "parse_args" and shape != "pos" and i % 3 == 0 and "--print_config" not in " ".join(map(str, pcopy)):
+    if o.accepted and method == "parse_args" and shape != "pos" and "--print_config" not in " ".join(map(str, pcopy)):
         # what parse_args accepts it can also print: the same command line with --print_config ends with status 0
         o3, _ = run_call(factory(), method, ["--print_config"] + list(pcopy), env)
         ctx.count("mon.print_config_of_accepted_argv")
@@ -473,6 +473,46 @@ def token_class(t):
     return "tok:" + (t if len(t) < 6 else "long")
 
 
+class _OwnLoaderError(Exception):
+    pass
+
+
+def custom_loader_after_construction(ctx):
+    """the documented way to replace a loader (set_loader with the exceptions it raises), done after parsers exist: malformed
+    text read by the new loader is a parse failure like any other. Runs last in the shard (the loader table is global)."""
+    from jsonargparse import set_loader
+    from jsonargparse import _loaders_dumpers as ld
+
+    mode = "vf_own_mode"
+
+    def own_loader(text):
+        if "[" in text and "]" not in text:
+            raise _OwnLoaderError("unbalanced bracket")
+        import yaml
+
+        return yaml.safe_load(text)
+
+    set_loader(mode, ld.yaml_load, exceptions=ld.get_loader_exceptions("yaml"))
+    for eoe in (False, True):
+        p = ArgumentParser(exit_on_error=eoe, parser_mode=mode, env_prefix="APP", default_env=False)
+        p.add_argument("--cfg", action=ActionConfigFile)
+        p.add_argument("--num", type=int, default=1)
+        p.add_argument("--many", nargs="+", type=int)
+        call(p.parse_string, "num: 2")
+        set_loader(mode, own_loader, exceptions=(_OwnLoaderError,))
+        bad_file = os.path.join(ctx.workdir, "own_bad.yaml")
+        with open(bad_file, "w") as f:
+            f.write("num: [1,\n")
+        for method, payload in (("parse_string", "num: [1,"), ("parse_path", bad_file), ("parse_args", ["--cfg", bad_file]), ("parse_args", ["--cfg", "num: [1,"]), ("parse_env", {"APP_MANY": "[1,"})):
+            o, _ = run_call(p, method, payload)
+            ctx.count("mon.custom_loader_set_after_construction")
+            ctx.evaluation(("own-loader", method, eoe))
+            bad = classify_outcome(o, eoe)
+            if bad is not None:
+                ctx.violation("outcome", f"{bad}@{o.frame}<-custom-loader-set-after-parser-construction", dict(method=method, payload=short(payload, 100), exit_on_error=eoe, outcome=o.brief(), tb=o.tb, input_classes="malformed-text-for-own-loader"))
+        set_loader(mode, ld.yaml_load, exceptions=ld.get_loader_exceptions("yaml"))
+
+
 def run_shard(ctx):
     FX.update(make_fixture(ctx.workdir))
     global STEPS
@@ -483,6 +523,7 @@ def run_shard(ctx):
         case(ctx, i, rng, fx)
         if i < 3:
             pass
+    custom_loader_after_construction(ctx)
     ctx.extra(step_counter_available=STEPS.available, step_budget=STEP_BUDGET)
     rng = ctx.case_rng(0)
     ctx.sample(dict(argv=gen_argv(rng, "flat", fx)[0], text=gen_text(rng, "classes", fx)[0][:200]))
